@@ -40,8 +40,26 @@ fn w() -> &'static Watch {
 
 thread_local! { static MY_SLOT: std::cell::Cell<usize> = const { std::cell::Cell::new(usize::MAX) }; }
 
+/// `UEC_TRACE_LAST=<file>`: the case about to be handed to the real code is written to the file (overwriting the
+/// previous one).  `./check` re-runs a family that died (abort, allocation failure, stack overflow: nothing a
+/// `catch_unwind` can stop) single-threaded with this switch to learn the input it died on.
+fn trace(what: &str) {
+    use std::io::{Seek, SeekFrom, Write};
+    static F: OnceLock<Option<Mutex<std::fs::File>>> = OnceLock::new();
+    let f = F.get_or_init(|| std::env::var("UEC_TRACE_LAST").ok().and_then(|p| std::fs::File::create(p).ok()).map(Mutex::new));
+    if let Some(m) = f {
+        if let Ok(mut file) = m.lock() {
+            let line = format!("{:08}{}", what.len(), what);
+            let _ = file.seek(SeekFrom::Start(0));
+            let _ = file.write_all(line.as_bytes());
+        }
+    }
+}
+
 /// called by `run_sharded` before / after each case of worker `worker`
 pub fn begin(worker: usize, index: u64) {
+    let fam = w().family.lock().map(|g| g.clone()).unwrap_or_default();
+    trace(&format!("{fam} case #{index}"));
     let wt = w();
     let s = &wt.slots[worker % SLOTS];
     MY_SLOT.with(|c| c.set(worker % SLOTS));
@@ -56,6 +74,7 @@ pub fn end(worker: usize) {
 pub fn note(what: &str) {
     let i = MY_SLOT.with(|c| c.get());
     if i == usize::MAX { return; }
+    trace(what);
     if let Ok(mut n) = w().slots[i].note.lock() { n.clear(); n.push_str(what); }
 }
 
